@@ -2,13 +2,13 @@
 //! Combines the API-level half (c16a: VariableSet vs a naive stack-of-maps model) and the
 //! script-level half (c16b: generated scripts vs a stack-of-scopes model of the manual).
 
-use super::{c16a, c16b};
+use super::{c16a, c16b, c16c};
 use crate::engine::*;
 
 pub const INFO: PropInfo = PropInfo {
     id: "C16",
     level: "exploration",
-    rule: "two families of cases. (api-*) operation trees on VariableSet: push regular/volatile context (RAII, so histories are trees), get_or_new in Global/Local/Volatile scope followed by assign scalar/array, export, make read-only; unset per scope; reads get / get_scoped / get_scalar / iter(scope) / env_c_strings / positional_params; exhaustive over trees of <=4 (quick) / <=5 (thorough) mutating operations over 2 names x 2 values x 8 action lists at nesting <=3, plus proptest trees of <=30 operations at nesting <=4; executed in lock-step with a naive stack-of-maps model, every result, error and the whole observable state compared after each step. (script-*) proptest programs of <=12 statements over variables x y z and functions f g: assignments prefixed to regular built-ins, functions, special built-ins and external utilities; typeset locals, globals assigned in functions, set --/shift, nested calls, return; export/readonly/unset; for/read/getopts as assigners; run by the real shell on the simulated OS and compared at every snapshot (value, exported, read-only of x y z, positional parameters, $? class), at every execve (environment entries of x y z) and at the end (status class, nothing after a fatal error) with a stack-of-scopes model of docs/src. Non-trivial: api = a volatile context with a hidden variable, an unset in Local/Volatile scope, or a rejected read-only assign/unset; script = a temporary assignment together with a function call, a read-only violation attempt, or a local shadowing an outer variable; distinct by serialised case.",
+    rule: "three families of cases. (script-lineno) one-command-per-line scripts over LINENO, the variable whose value the shell computes: observation points `probe L $LINENO` (also on a continuation line), `readonly LINENO`, `export LINENO`, assigners that fail without ending the shell (`read`, `getopts`, `typeset`) and optionally a fatally refused last line (assignment, temporary assignment, `for`, arithmetic assignment, `unset`, `readonly`/`export` with a value); until an assignment succeeds every observation shows its own line number, a refused assigner leaves non-zero `$?`, nothing runs after a fatal refusal, and the EXIT trap observes the same `$LINENO` as when the refused line is replaced by `exit 3`; non-trivial = a refused assignment followed by an observation. (api-*) operation trees on VariableSet: push regular/volatile context (RAII, so histories are trees), get_or_new in Global/Local/Volatile scope followed by assign scalar/array, export, make read-only; unset per scope; reads get / get_scoped / get_scalar / iter(scope) / env_c_strings / positional_params; exhaustive over trees of <=4 (quick) / <=5 (thorough) mutating operations over 2 names x 2 values x 8 action lists at nesting <=3, plus proptest trees of <=30 operations at nesting <=4; executed in lock-step with a naive stack-of-maps model, every result, error and the whole observable state compared after each step. (script-*) proptest programs of <=12 statements over variables x y z and functions f g: assignments prefixed to regular built-ins, functions, special built-ins and external utilities; typeset locals, globals assigned in functions, set --/shift, nested calls, return; export/readonly/unset; for/read/getopts as assigners; run by the real shell on the simulated OS and compared at every snapshot (value, exported, read-only of x y z, positional parameters, $? class), at every execve (environment entries of x y z) and at the end (status class, nothing after a fatal error) with a stack-of-scopes model of docs/src. Non-trivial: api = a volatile context with a hidden variable, an unset in Local/Volatile scope, or a rejected read-only assign/unset; script = a temporary assignment together with a function call, a read-only violation attempt, or a local shadowing an outer variable; distinct by serialised case.",
     assumptions: &[
         "documented behaviour of VariableSet (doc comments) and of docs/src/language (simple.md, variables.md, functions.md, termination.md) is the reference",
         "whether a prefix assignment of a special built-in sets the export attribute is treated as unspecified (POSIX XCU 2.9.1; manual and code disagree, the repository's unit test pins the code's choice)",
@@ -19,8 +19,9 @@ pub const INFO: PropInfo = PropInfo {
 pub fn run(ctx: &Ctx, st: &mut Stats) {
     c16a::run(ctx, st);
     c16b::run(ctx, st);
+    c16c::run(ctx, st);
 }
 
 pub fn replay(driver: &str, case: &serde_json::Value) -> Result<(Outcome, Option<&'static str>), String> {
-    if driver.starts_with("script-") { c16b::replay(driver, case) } else { c16a::replay(driver, case) }
+    if driver == "script-lineno" { c16c::replay(driver, case) } else if driver.starts_with("script-") { c16b::replay(driver, case) } else { c16a::replay(driver, case) }
 }
